@@ -8,6 +8,7 @@ mod docs;
 mod heads;
 mod livesync;
 mod netpair;
+mod protect;
 mod query;
 mod replica;
 mod session;
@@ -127,6 +128,11 @@ fn main() {
             let mut rng = Rng::new(seed);
             let scheds = args.kv.get("schedules").map(|p| read_schedules(p)).unwrap_or_default();
             swarm::run(&w, seed, &mut rng, scheds, args.num("n", 30) as usize, &dir, &mut trace, &mut sum);
+        }
+        "protect" => {
+            let w = World::new(seed, 3, 3);
+            let mut rng = Rng::new(seed);
+            protect::run(&w, seed, &mut rng, args.num("n", 20) as usize, &mut trace, &mut sum);
         }
         "docs" => {
             let w = World::new(seed, 3, 7);
